@@ -43,6 +43,7 @@ def cases(tier, rng, run):
 
     for _ in range(500 if tier == "quick" else 6000):
         out.append(Case(c12.gen(rng, tier), "prov-history"))
+    out += [Case(l, "prov-history") for l in c12.live_view_histories()]
     # functions whose ONLY dltype hint is the return annotation (factories, loaders): no parameter at all, or parameters of plain types —
     # the result is checked all the same: the body has run once, the violating value is not handed to the caller
     rets = [("S|FloatTensor,0,a b", "T,0:float32,2"), ("S|FloatTensor,0,a b", "T,1:int32,2.3"), ("S|FloatTensor,0,3 a", "T,0:float32,2.5"), ("S|FloatTensor,0,a a", "T,2:float32,2.3"),
